@@ -8,7 +8,7 @@ from bip_utils import (Bip38Encrypter, Bip38Decrypter, Bip38PubKeyModes, Base58E
 from bip_utils.bip.bip38 import bip38_ec
 from bip_utils.bip.bip38.bip38_ec import Bip38EcKeysGenerator
 
-LEAN_MODULES = ["BipVerif.Props.C13Wif"]
+LEAN_MODULES = ["BipVerif.Props.C13Wif", "BipVerif.Props.C13"]
 PASS = {}
 PASSPHRASES = ["TestingOneTwoThree", "Satoshi", "", "MOLON LABE", "ΜΟΛΩΝ ΛΑΒΕ", "é", "é", "Å", "Å", "\u03d2\u0301\x00\U00010400\U0001f4a9", "a\x00b", "ﬁ", "pass phrase 🙂"]
 
@@ -94,6 +94,10 @@ def gen(rng, tier):
         raw[field] ^= 1 << rng.randrange(8)
         yield Case("b38noecdec", [tx(Base58Encoder.CheckEncode(bytes(raw))), pf], "neg-corrupt")
         yield Case("b38noecdec", [tx(Base58Encoder.CheckEncode(bytes(raw[:-1]))), pf], "neg-corrupt")
+        # the compression flag flipped (0xC0 <-> 0xE0): the embedded address hash is the one of the other public key form
+        raw2 = bytearray(Base58Decoder.CheckDecode(enc))
+        raw2[2] ^= 0x20
+        yield Case("b38noecdec", [tx(Base58Encoder.CheckEncode(bytes(raw2))), pf], "neg-flag-flip")
     yield Case("b38noecenc", [hx(bytes(32)), nfc_field("x"), "1"], "neg-key")
     yield Case("b38noecenc", [hx(b"\xff" * 32), nfc_field("x"), "0"], "neg-key")
     m = 2 if tier == "quick" else 80
@@ -113,14 +117,41 @@ def gen(rng, tier):
         raw = bytearray(Base58Decoder.CheckDecode(enc))
         raw[[2, 2, 5, 9, 17, 30][i % 6]] ^= [0x08, 0x40, 1, 1, 1, 1][i % 6]
         yield Case("b38ecdec", [tx(Base58Encoder.CheckEncode(bytes(raw))), pf], "neg-corrupt")
+    # directed, output-dependent: seedb chosen (with an independent scrypt/SHA-256 computation) so that the generated private key
+    # passfactor * factorb mod n has leading zero bytes
+    import hashlib
+    N_SECP = 0xFFFFFFFFFFFFFFFFFFFFFFFFFFFFFFFEBAAEDCE6AF48A03BBFD25E8CD0364141
+    for i in range(1 if tier == "quick" else 12):
+        p = PASSPHRASES[(i * 3) % 3]
+        pf = nfc_field(p)
+        with_lot = i % 2 == 1
+        lot, seq = (rng.randrange(1048576), rng.randrange(4096)) if with_lot else ("-", "-")
+        salt = bytes(rng.randrange(256) for _ in range(4 if with_lot else 8))
+        ip = with_urandom([salt], lambda: Bip38EcKeysGenerator.GenerateIntermediatePassphrase(p, None if lot == "-" else lot, None if seq == "-" else seq))
+        pw = unicodedata.normalize("NFC", p).encode("utf-8")
+        pre = hashlib.scrypt(pw, salt=salt, n=16384, r=8, p=8, dklen=32, maxmem=64 * 1024 * 1024)
+        if with_lot:
+            ent = salt + (lot * 4096 + seq).to_bytes(4, "big")
+            pre = hashlib.sha256(hashlib.sha256(pre + ent).digest()).digest()
+        pfac = int.from_bytes(pre, "big")
+        for ctr in range(100000):
+            seedb = ctr.to_bytes(4, "big") + bytes(20)
+            fb = int.from_bytes(hashlib.sha256(hashlib.sha256(seedb).digest()).digest(), "big")
+            if (pfac * fb) % N_SECP < 2**248:
+                break
+        c = str(i % 2)
+        yield Case("b38ecgen", [tx(ip), hx(seedb), c], "ec-gen-leading-zero")
+        enc = with_urandom([seedb], lambda: Bip38EcKeysGenerator.GeneratePrivateKey(ip, mode(c)))
+        yield Case("b38ecdec", [tx(enc), pf], "ec-dec-leading-zero")
     for lot, seq in ((1048576, 0), (0, 4096), (2**40, 1)):
         yield Case("b38int", [nfc_field("p"), hx(bytes(4)), lot, seq], "neg-lotseq")
     # WIF over every WIF version byte of the coin tables
     from harness.props.c05 import key_net_versions
     from bip_utils.coin_conf import CoinsConf
     from bip_utils.coin_conf.coin_conf import CoinConf
-    wifs = sorted({getattr(CoinsConf, n).m_params["wif_net_ver"] for n in dir(CoinsConf)
-                   if isinstance(getattr(CoinsConf, n), CoinConf) and "wif_net_ver" in getattr(CoinsConf, n).m_params})
+    from harness.canon import conf_params
+    wifs = sorted({conf_params(getattr(CoinsConf, n))["wif_net_ver"] for n in dir(CoinsConf)
+                   if isinstance(getattr(CoinsConf, n), CoinConf) and "wif_net_ver" in conf_params(getattr(CoinsConf, n))})
     for i in range(300 if tier == "quick" else 20000):
         v = wifs[i % len(wifs)]
         k = rand_priv(rng, "secp256k1")
